@@ -4,7 +4,7 @@ CONSTANTS
   Dials <- MCDials
   Proxies = {"none", "http", "https", "socks5"}
   HookSets = {"c", "ct"}
-  Tmos = {"none", "ht", "ctx"}
+  Tmos = {"none", "ht", "ctx", "bothe", "bothl"}
   ReplyKinds = {"good", "neg"}
   CReplyKinds = {"ok", "refuse"}
   Certs = {"valid", "other"}
